@@ -458,9 +458,125 @@ func checkTextDescription(p *Program, r *Report) {
 			why = "ASCII byte k is taken from " + trunc(valKey(stv.Args[4]), 80) + "; required data[12+k] for k < count−1"
 		}
 	}
+	checkTextDescriptionComplete(p, r, fn)
 	r.Check(sigOK, rule, "signature", pos, "BE32 data[0:4] == 'desc' is required", "the 'desc' signature is not checked on data[0:4]")
 	r.Check(cntOK, rule, "count", pos, "count = BE32 data[8:12]; count−1 characters (terminating NUL excluded)", why)
 	r.Check(copyOK, rule, "bytes", pos, "character k = data[12+k] for k in [0, count−1), returned as string", why)
+}
+
+// dataBE32 is the big-endian 32-bit value at data[off:off+4] (symbolic offset allowed).
+func dataBE32(e *Engine, off *Form) *Form {
+	bv := &BV{Bits: make([]Bit, 32)}
+	for k := 0; k < 4; k++ {
+		f := e.A.App("index", types.Typ[types.Uint8], &Opaque{Key: "data"}, off.Add(formInt(int64(k))))
+		an, _ := f.SingleAtom()
+		for j := 0; j < 8; j++ {
+			bv.Bits[8*(3-k)+j] = Bit{Kind: 'a', A: an, Idx: j}
+		}
+	}
+	return e.fromBV(bv, types.Typ[types.Uint32])
+}
+
+// checkTextDescriptionComplete: a well-formed v2 textDescription tag is never
+// rejected. The premise is the FULL layout of ICC.1:2001 §6.5.17 — signature
+// 'desc', ASCII count a >= 1, and data long enough for
+//
+//	12 + a  (header, ASCII text incl. NUL)  + 4 + 4 + 2u (Unicode language, count u, text)
+//	+ 2 + 1 + 67 (ScriptCode code, count <= 67, fixed 67-byte field)
+//
+// so that a reader which also parses the optional parts is not faulted for
+// requiring them. Every explored path that returns an error (read failures
+// included: a reader over memory fails exactly when it runs out of bytes) must
+// contain a condition this premise refutes; an error path that is feasible for
+// such a tag loses the description of a well-formed profile.
+func checkTextDescriptionComplete(p *Program, r *Report, fn *ssa.Function) {
+	rule := "C17.text"
+	pos := p.FnPos(fn)
+	e := NewEngine(p)
+	e.EvalInits = true
+	e.MaxForks = 2
+	e.FailReads = true
+	args := symArgs(e, fn)
+	outs, err := extract(p, e, fn, args)
+	if err != nil {
+		r.Undecide(rule, "complete", pos, err.Error())
+		return
+	}
+	data, _ := args[0].(*SliceVal)
+	if data == nil || data.Len == nil {
+		r.Undecide(rule, "complete", pos, "parameter is not a byte slice")
+		return
+	}
+	L := data.Len
+	// the premise, with the counts as this path has pinned them (a path that decided u == 0
+	// addresses the ScriptCode count at 22+a)
+	premiseOn := func(st *State) []*BoolVal {
+		a := st.resolve(dataBE32(e, formInt(8)))
+		u := st.resolve(dataBE32(e, formInt(16).Add(a)))
+		var plain []*BoolVal
+		for _, c := range st.conds {
+			cc := *c
+			cc.Src, cc.Exact = nil, nil
+			plain = append(plain, &cc)
+		}
+		if e.refutes(plain, &BoolVal{Op: ">=", A: u, B: formInt(1)}) {
+			u = formInt(0) // the path took the "no Unicode text" branch
+		}
+		scOff := formInt(22).Add(a).Add(u.Mul(formInt(2)))
+		sc := e.A.App("index", types.Typ[types.Uint8], &Opaque{Key: "data"}, scOff)
+		return []*BoolVal{
+			{Op: ">=", A: a, B: formInt(1)},
+			{Op: ">=", A: L, B: formInt(12 + 8 + 3 + 67).Add(a).Add(u.Mul(formInt(2)))},
+			{Op: "<=", A: sc, B: formInt(67)},
+		}
+	}
+	sig := dataBE32(e, formInt(0))
+	sigKey := (&BoolVal{Op: "==", A: sig, B: formInt(0x64657363)}).Key()
+	good, why := true, ""
+	n := 0
+	for _, o := range outs {
+		if o.Kind != "return" {
+			continue
+		}
+		tp, _ := o.Ret.(Tuple)
+		if len(tp) != 2 {
+			continue
+		}
+		if ev, ok := tp[1].(*ErrVal); ok && ev.IsNil {
+			continue
+		}
+		n++
+		refuted := false
+		premise := premiseOn(o.St)
+		var plain []*BoolVal
+		for _, c := range o.St.conds {
+			cc := *c
+			cc.Src, cc.Exact = nil, nil
+			plain = append(plain, &cc)
+		}
+		for i, c := range plain {
+			if c.Op == "!=" && c.Not().Key() == sigKey {
+				refuted = true
+				break
+			}
+			// the premise together with the rest of the path makes this condition impossible
+			others := append(append([]*BoolVal(nil), premise...), plain[:i]...)
+			others = append(others, plain[i+1:]...)
+			if e.refutes(others, c) {
+				refuted = true
+				break
+			}
+		}
+		if !refuted {
+			good = false
+			tail := condKeys(o)
+			if len(tail) > 400 {
+				tail = "…" + tail[len(tail)-400:]
+			}
+			why = fmt.Sprintf("the error return at %s is reachable for a tag with the 'desc' signature, an ASCII count >= 1 and the complete v2 layout present: a well-formed description is rejected [path: %s]", p.Pos(o.Pos), tail)
+		}
+	}
+	r.Check(good && n > 0, rule, "complete", pos, fmt.Sprintf("all %d error paths (failed reads included) require a wrong signature or missing bytes: no well-formed v2 tag is rejected", n), why)
 }
 
 func checkMluc(p *Program, r *Report) {
